@@ -515,8 +515,10 @@ def check_after_servicer(ctx, stored):
   after = bool(jax.config.jax_enable_x64)
   if after and not before:
     ctx.count('x64_flip_observed')
-  for case, base, _ in stored:
-    if ctx.out_of_time():
+  for n_done, (case, base, _) in enumerate(stored):
+    # (cheapest first) a shard that is late still re-executes three cheap cases:
+    # the monitor must not go unobserved only because the machine was busy
+    if ctx.out_of_time() and n_done >= 3:
       break
     other = safe_execute(ctx, case)
     if isinstance(other, tuple):
